@@ -18,6 +18,7 @@ RULE = ("sequential specification = the same request on a freshly built dataset.
 EXHAUSTIVE = "all request sequences up to length 3 over the 16-request menu"
 RULE += " " + 'Dataset kind nccdf: NetCDF inputs with stored cdf/quantiles and per-variable fill values.'
 RULE += " " + "Rounds 9-10: histories contain diagrams drawn from the same Data object (fss, droc, reliability, discrimination, timeseries); the Data object's times, lead times and locations are compared after every history."
+RULE += " " + 'Rounds 11-12: kind thin (exactly one dimension with more than one entry); axes of one dimension with coinciding slice values (leadtime / leadtimeday, time / day / year).'
 ASSUMPTIONS = ["the caller does not write into returned arrays"]
 REQUIRED_COUNTERS = ["histories", "calls_checked", "ledger_checks", "input_hash_checks", "repeat_pairs"]
 ANCHOR_FUNCS = ["Data.get_scores", "Data._get_score"]
